@@ -450,7 +450,14 @@ def execute(trace, ctx):
             elif kind == "alignment":
                 k = mols[op["pick"] % len(mols)]
                 o = M.objs[k]
-                ali = Alignment()
+                variant = (op["pick"] // 3) % 3
+                if variant == 0:
+                    # an alignment that already holds both molecules; one of them is set AGAIN (documented use)
+                    other = M.objs[mols[(op["pick"] // 11) % len(mols)]]["obj"]
+                    ali = Alignment(o["obj"].copy(), other.copy()) if op["pick"] % 2 else Alignment(other.copy(), o["obj"].copy())
+                    ctx.probe("alignment_reassigned")
+                else:
+                    ali = Alignment()
                 if op["pick"] % 2:
                     ali.start = o["obj"]
                     stored = ali.start
